@@ -2,6 +2,7 @@
 C08 — trait-instruction params (vars, ..update, return, attributes) act as documented.
 -/
 import O2oModel.Props.C17
+import O2oModel.Lemmas.Blocks
 namespace O2o
 open Gen
 
@@ -85,5 +86,21 @@ theorem C08_duplicate_param (b : Back) :
     (parse2 (parseTraitAttrCore b) [Tok.ident "A", .punct '|' false, .ident "vars", .group .paren [.ident "x", .punct ':' false, .group .brace [.lit "1"]],
         .punct ',' false, .ident "vars", .group .paren [.ident "y", .punct ':' false, .group .brace [.lit "2"]]]).toOption.isNone = true := by
   cases b <;> rfl
+
+/-- C08-3 (`..expr`, syntactic part): in a struct body the update expression is the *last* fragment, after every member
+    line and every ghost line — so it can only supply the members no fragment provides (any number of members) -/
+theorem C08_update_last (ctx : ImplContext) (named : Bool) (l : List (Nat × String × Field)) (fuel : Nat)
+    (out : TS) (rest : List FieldContainer) (u : TS)
+    (hf : l.length + 1 < fuel) (hc : ∀ t ∈ l, t.2.2.attrs.child ctx.ty = none) (hu : ctx.structAttr.update = some u)
+    (h : structInitBlockInner fuel (flatContainers l) named ctx none = .ok (out, rest)) :
+    ∃ body, wrapInit ctx ctx.structAttr.typeHint named (body ++ [Tok.punct '.' true, Tok.punct '.' false] ++ quoteAction u none ctx) = .ok out := by
+  obtain ⟨ls, g, _, _, hw, _⟩ := structInitBlockInner_flat ctx named l fuel out rest hf hc h
+  refine ⟨ls ++ g, ?_⟩
+  rw [← hw]
+  simp [updateToks, hu, j, p, List.append_assoc]
+
+/-- without `..expr` nothing is appended -/
+theorem C08_no_update (ctx : ImplContext) (hu : ctx.structAttr.update = none) : updateToks ctx = [] := by
+  simp [updateToks, hu]
 
 end O2o
